@@ -275,9 +275,17 @@ func H_C20_goroutines() {
 		fail[h] = verifnd.Choose("fail."+h, 2) == 1
 	}
 	anyFail := false
+	nfail := 0
 	for _, h := range hosts {
 		anyFail = anyFail || fail[h]
+		if fail[h] {
+			nfail++
+		}
 	}
+	// (findings are keyed by how many calls fail: natively the arrival order of the goroutines is up
+	// to the Go scheduler, the engine explores one schedule — the all-fail case behaves the same in all)
+	verifnd.Fact("hosts", itoa(len(hosts)))
+	verifnd.Fact("failing", itoa(nfail))
 	errBoom := errors.New("boom")
 	ms := &nodestate.MasterState{ExecutedGtidSet: "x"}
 	getter := func(h string) (*nodestate.NodeState, error) {
